@@ -64,8 +64,14 @@ def nest_assume(a, ps):
     return A
 
 
+def odd_assume(a, ps):
+    return [a[0] == ps] + [z3.ULE(a[i], 1) for i in (1, 2, 3, 8)] + [z3.ULE(a[4], 5), z3.ULE(a[5], 2), z3.ULE(a[6], 2), z3.ULE(a[7], 2)]
+
+
 def slices(tier, rng):
     out = []
+    for ps in ((4,) if tier == 'quick' else (4, 8)):
+        out.append(Slice('odd-ps%d' % ps, 't_odd', 9, lambda a, ps=ps: odd_assume(a, ps), opts={'must_reach': ['ok', 'err']}))
     for ps in (4, 8):
         for n, kinds in ((1, [0, 1, 3, 4, 5]), (2, [0, 3, 4])):
             if tier == 'quick' and (n == 2 or ps == 8): continue
